@@ -6,6 +6,9 @@
      FactsC16.v      C16: order / white space / duplicates / blanks do not matter
      FactsC04.v      C04: containment is the union-of-intervals reading of Spec/VersIntervals.v
      FactsExample.v  a scheme for which every semantic hypothesis of C04/C16 is proved
+     NativeCommon.v, Native<Eco>.v   [native_ok] proved for the eleven real schemes over the model's
+                     own ecosystem layers, and the end-to-end corollaries C04_<scheme>_end_to_end
+                     (not re-exported here: they depend on Top.v)
 
    The main statements are re-checked here. *)
 From Verif.Base Require Import Bytes.
